@@ -114,6 +114,10 @@ class Census(Monitor):
             raise Violation('conservation', f'parts not in exactly one place: {bad} '
                                             f'(generated={sum(generated.values())} inside={sum(inside.values())} '
                                             f'delivered={sum(delivered.values())} lost={sum(lost.values())})')
+        for k in w.dev.values():
+            if isinstance(k, Sink) and k.received_parts_count != len(w.hub.delivered.get(k.name, [])):
+                raise Violation('sink_count', f'{k.name} says it received {k.received_parts_count} parts, '
+                                              f'{len(w.hub.delivered.get(k.name, []))} were handed to it')
         for s in w.sources():
             sup = self.supplied(s)
             if sup != s.produced_parts:
